@@ -630,19 +630,23 @@ func classify(err error) string {
 }
 
 func (s *scenario) verify(ac *blockchain.AggregateCommit) (res string) {
-	done := make(chan string, 1)
-	go func() {
-		defer func() {
-			if p := recover(); p != nil {
-				done <- "panic"
-			}
+	// a slow machine is not an observation of the code: wait longer before calling it a timeout
+	for _, limit := range []time.Duration{20 * time.Second, 300 * time.Second} {
+		done := make(chan string, 1)
+		go func() {
+			defer func() {
+				if p := recover(); p != nil {
+					done <- "panic"
+				}
+			}()
+			done <- classify(s.exec.VerifC06VerifyAggregateCommit(ac))
 		}()
-		done <- classify(s.exec.VerifC06VerifyAggregateCommit(ac))
-	}()
-	select {
-	case res = <-done:
-	case <-time.After(20 * time.Second):
-		res = "timeout"
+		select {
+		case res = <-done:
+			return res
+		case <-time.After(limit):
+			res = "timeout"
+		}
 	}
 	return res
 }
@@ -1062,7 +1066,12 @@ func (s *scenario) gacOp() {
 		}()
 		ac, err := s.exec.GetAggregateCommit()
 		if err != nil {
-			op.G.K = "err"
+			op.G.K = "err:other"
+			if err.Error() == liskbft.ErrBFTParamsNotFound.Error() {
+				op.G.K = "err:params"
+			} else if strings.Contains(err.Error(), "single commit is empty") || strings.Contains(err.Error(), "does not exist in the given keypairs") {
+				op.G.K = "err:agg"
+			}
 			return
 		}
 		op.G.K = "ok"
